@@ -9,6 +9,23 @@ TL = "moptipyapps.tsp.tour_length"
 
 PLANS = {}
 
+REV = "moptipyapps.tsp.ea1p1_revn"
+FEA = "moptipyapps.tsp.fea1p1_revn"
+import bounded.tsp_solve  # noqa: E402
+
+PLANS["C06"] = Plan(
+    "C06", "proof",
+    functions=[REV + ":rev_if_not_worse", FEA + ":rev_if_h_not_worse", REV + ":TSPEA1p1revn.solve",
+               FEA + ":TSPFEA1p1revn.solve"],
+    lemmas=["path_split", "path_frame", "path_left", "path_rev", "path_bound", "tour_le_ub"],
+    bounded=[bounded.tsp_solve.harness],
+    explanation="kernels: permutation preserved, returned length exact (segment-reversal lemmas proved by induction), "
+                "EA never worse, FEA table indices in [0, UB]; solve loops: invariant perm(x) and y == tour(x), "
+                "pre@call:register proves every registered pair",
+    trusted=["axiom tour_le_ub (= definition of the ghost predicate tour_bounded; justified by C05 + Lean lemma A3)",
+             "summaries of moptipy/numpy calls in solve() (E2, E3, E4)"],
+)
+
 PLANS["C05"] = Plan(
     "C05", "proof",
     functions=[TL + ":tour_length"],
